@@ -425,6 +425,10 @@ func c08Scenarios(tier string) []*Scenario {
 			if !st.conns["B"].Closed {
 				v = append(v, "the transport of the connection whose peer hung up was not closed")
 			}
+			if got := fmt.Sprint(answersOn(st.conns["B"])); got != "[1 2 3]" {
+				// the peer only stopped SENDING: it still reads, and the answers to what it sent are written
+				v = append(v, "answers written to connection B (whose peer stopped sending behind its burst): "+got+", expected [1 2 3]")
+			}
 			if st.served {
 				v = append(v, "Serve returned")
 			}
